@@ -159,3 +159,30 @@ Definition site4_eqb (a b : site4) : bool :=
   String.eqb a1 b1 && String.eqb a2 b2 && String.eqb a3 b3 && String.eqb a4 b4.
 Definition unreviewed_ranges (l : list site4) : list site4 :=
   filter (fun r => negb (existsb (site4_eqb r) reviewed_ranges)) l.
+
+(* ---------- reviewed package-level state reachable from translation functions (GenSqlSites.v
+   translation_package_state lists what the sources contain today: variables under reader/ that a function
+   reachable from Parse / Plan* / Transpile / a planner's Process / an SQL String method assigns, takes the
+   address of, or calls a pointer-receiver method on; calls through interfaces are expanded by method name, so
+   the list over-approximates). None of them holds a query, a parsed script, a plan or SQL text:
+   * compiled regexp / participle parsers built once at start-up and only read (ReplaceAllString, ParseString);
+   * generated protobuf descriptor tables;
+   * utils/dbVersion: the per-database version cache (reached through the by-name expansion of Process);
+   * the logger; the read lock of the table-name map. *)
+Definition site3 := (string * string * string)%type.
+Definition reviewed_state : list site3 :=
+  [("logql/logql_transpiler_v2/internal_planner", "sanitizeRe", "*regexp.Regexp");
+   ("prof", "file_querier_proto_enumTypes", "[]protoimpl.EnumInfo");
+   ("prof/parser", "Parser", "*participle.Parser[parser.Script]");
+   ("prof/types/v1", "file_types_v1_types_proto_enumTypes", "[]protoimpl.EnumInfo");
+   ("tempo", "tagsParser", "*participle.Parser[tempo.Tags]");
+   ("utils/dbVersion", "mtx", "sync.Mutex");
+   ("utils/dbVersion", "throttled", "int32");
+   ("utils/dbVersion", "versions", "map[string]dbVersion.VersionInfo");
+   ("utils/logger", "Logger", "*logrus.Logger");
+   ("utils/tables", "lock", "sync.RWMutex")].
+Definition site3_eqb (a b : site3) : bool :=
+  let '(a1, a2, a3) := a in let '(b1, b2, b3) := b in
+  String.eqb a1 b1 && String.eqb a2 b2 && String.eqb a3 b3.
+Definition unreviewed_state (l : list site3) : list site3 :=
+  filter (fun r => negb (existsb (site3_eqb r) reviewed_state)) l.
